@@ -8,7 +8,7 @@ import (
 )
 
 var c16Cmds = []string{"status", "lockstate", "breakonstart", "break", "rmbreak", "disablebreak", "cont", "describe", "extract", "inject", "bogus", ""}
-var c16Args = []string{"1", "77", "-1", "99999999999999999999", "t:2", "t:", ":5", "t", "a", "1+", "stepin", "stepover", "stepout", "resume", "true", "0"}
+var c16Args = []string{"1", "77", "-1", "99999999999999999999", "t:2", "t:", ":5", "t", "a", "1+", "stepin", "stepover", "stepout", "resume", "true", "0", "foo()", "len(1)", "1+\"a\"", "b"}
 var c16Lbl = []string{"0", "1", "2", "3", "4", "5"}
 
 const c16ProgTop = "a := 1\nb := 2\nc := 3"
@@ -62,7 +62,11 @@ func VerifC16Total() {
 	ncmd := zz.Param("NCMD", 1)
 	maxArgs := zz.Param("MAXARGS", 2)
 	for c := 0; c < ncmd; c++ {
-		line := c16Cmds[zz.Choice("cmd"+c16Lbl[c], len(c16Cmds))]
+		ci := zz.Choice("cmd"+c16Lbl[c], len(c16Cmds))
+		if only := zz.Param("CMD", -1); only >= 0 {
+			zz.Assume(ci == only)
+		}
+		line := c16Cmds[ci]
 		na := zz.Choice("nargs"+c16Lbl[c], maxArgs+1)
 		for i := 0; i < na; i++ {
 			ai := zz.Choice("arg"+c16Lbl[c]+c16Lbl[i], len(c16Args)+1)
